@@ -27,7 +27,7 @@ BRANCHES = [
     'boxCdf:before', 'boxCdf:inside', 'boxCdf:after',
     'gaussCall:inside', 'gaussCall:outside', 'clip:below', 'clip:inside', 'clip:above',
     'gaussCdf:before', 'gaussCdf:inside', 'gaussCdf:after', 'gaussNewChecked:some', 'gaussNewChecked:none',
-    'setOne:no-such-attr', 'setOne:changed', 'setOne:unchanged', 'setOne:not-in-dict',
+    'setOne:changed', 'setOne:unchanged', 'setOne:not-in-dict',
     'setOneV:after-error', 'setOneV:num', 'setOneV:arr', 'setOneV:bad', 'setParamsV:model-stops-delegation',
     'move:unityT', 'move:box', 'move:gauss', 'move:no-such-method', 'moveU:none', 'moveU:some',
     'copy:ffm', 'copy:profile', 'copySet:ffm', 'copySet:profile',
@@ -39,6 +39,7 @@ BRANCHES = [
 BRANCHES_EXCLUDED = {
     'Heap.copy:none / Heap.call:none / targets:none': 'a Python call always has a live receiver object; dangling heap indices do not exist',
     'Heap.setParams: acc.1[j]? = none': 'a model always refers to existing profile objects',
+    'setOne / setOneV: getAttr = none': 'param_names are validated to be properties by the param_names setter of MathFunction',
 }
 
 FM = 'skyllh/core/flux_model.py'
@@ -55,8 +56,9 @@ _RECORDED_NAMES = {
 # what the constructors take (the harness' own knowledge of the interface; used by the oracles)
 CTOR_PARAMS = {'point': ['ra', 'dec'], 'pl': ['E0', 'gamma'], 'cutoff': ['E0', 'gamma', 'Ecut'],
                'logpar': ['E0', 'alpha', 'beta'], 'unityT': ['t_start', 't_stop'], 'box': ['t0', 'tw'],
-               'gauss': ['t0', 'sigma_t'], 'unityS': [], 'unityE': [], 'function': []}
-E_KINDS = ('pl', 'cutoff', 'logpar', 'function', 'unityE')
+               'gauss': ['t0', 'sigma_t'], 'unityS': [], 'unityE': [], 'function': [], 'epeak': ['e_peak']}
+E_KINDS = ('pl', 'cutoff', 'logpar', 'function', 'unityE', 'epeak')
+NUMERIC_INT_KINDS = ('cutoff', 'logpar', 'function', 'epeak')     # get_integral is numerical in the code
 T_KINDS = ('unityT', 'box', 'gauss')
 
 
@@ -142,6 +144,9 @@ def build(spec):
         return fm.CutoffPowerLawEnergyFluxProfile(E0=p['E0'], gamma=p['gamma'], Ecut=p['Ecut'], energy_unit=unit(u), cfg=cfg())
     if k == 'logpar':
         return fm.LogParabolaPowerLawEnergyFluxProfile(E0=p['E0'], alpha=p['alpha'], beta=p['beta'], energy_unit=unit(u), cfg=cfg())
+    if k == 'epeak':
+        return fm.EpeakFunctionEnergyProfile(function=PlExp(p['g'], p['Ec']), e_peak_orig=p['e_peak_orig'], e_peak_offset=p['e_peak'],
+                                             energy_unit=unit(u), cfg=cfg())
     if k == 'function':
         return fm.FunctionEnergyFluxProfile(function=PlExp(p['g'], p['Ec']), energy_unit=unit(u), cfg=cfg())
     if k == 'unityT':
@@ -169,7 +174,7 @@ def build(spec):
 def kind_of(obj):
     import skyllh.core.flux_model as fm
     for k, c in (('cutoff', fm.CutoffPowerLawEnergyFluxProfile), ('logpar', fm.LogParabolaPowerLawEnergyFluxProfile),
-                 ('pl', fm.PowerLawEnergyFluxProfile), ('function', fm.FunctionEnergyFluxProfile),
+                 ('pl', fm.PowerLawEnergyFluxProfile), ('epeak', fm.EpeakFunctionEnergyProfile), ('function', fm.FunctionEnergyFluxProfile),
                  ('unityE', fm.UnityEnergyFluxProfile), ('unityT', fm.UnityTimeFluxProfile), ('box', fm.BoxTimeFluxProfile),
                  ('gauss', fm.GaussianTimeFluxProfile), ('point', fm.PointSpatialFluxProfile),
                  ('unityS', fm.UnitySpatialFluxProfile), ('ffm', fm.FactorizedFluxModel)):
@@ -196,6 +201,8 @@ def raw_state(obj):
         return [g('E0'), g('gamma'), g('Ecut')]
     if k == 'logpar':
         return [g('E0'), g('alpha'), g('beta')]
+    if k == 'epeak':
+        return [g('e_peak'), g('e_peak_orig')]
     if k in ('unityT', 'box'):
         return [g('t_start'), g('t_stop')]
     if k == 'gauss':
@@ -309,7 +316,7 @@ def o_additive(ctx, case):
     v, err = _try(lambda: (g(a, b), g(b, c), g(a, c)), 'get_integral of %r' % spec)
     if err:
         return err
-    rt = 1e-6 if spec['kind'] in ('cutoff', 'logpar', 'function') else 1e-9
+    rt = 2e-2 if spec['kind'] == 'epeak' else (1e-6 if spec['kind'] in NUMERIC_INT_KINDS else 1e-9)
     if not abs(v[0] + v[1] - v[2]) <= rt * (abs(v[0]) + abs(v[1]) + abs(v[2])) + pl_noise(spec, [a, b, b, c, a, c]) + 1e-300:
         return 'get_integral of %r is not additive: [%r,%r] %r + [%r,%r] %r != [%r,%r] %r' % (spec, a, b, v[0], b, c, v[1], a, c, v[2])
     return None
@@ -335,7 +342,7 @@ def o_units(ctx, case):
                           np.abs(np.asarray(prof(x1 * (1 - 9e-16), unit=unit(u1)), dtype=np.float64) - v[0]))
     if not bool(np.all(np.abs(v[0] - v[1]) <= 1e-9 * np.maximum(np.abs(v[0]), np.abs(v[1])) + 4 * sens)):
         return '%r: values at %r %s = %r but at the same points in %s = %r' % (spec, xs, u1, v[0].tolist(), u2, v[1].tolist())
-    if len(xs) >= 2 and spec['kind'] not in ('cutoff', 'logpar', 'function'):
+    if len(xs) >= 2 and spec['kind'] not in NUMERIC_INT_KINDS:
         lo, hi = min(xs), max(xs)
         w, err = _try(lambda: (float(np.atleast_1d(prof.get_integral(lo, hi, unit=unit(u1)))[0]),
                                float(np.atleast_1d(prof.get_integral(lo * f12, hi * f12, unit=unit(u2)))[0])),
@@ -997,7 +1004,7 @@ def o_purity(ctx, case):
         return err
     kind = spec['kind']
     desc = '%s of %r (unit=%s)' % ({'call': '__call__', 'int': 'get_integral', 'cdf': 'cdf'}[method], spec, au)
-    rt = 1e-8 if (method == 'int' and kind in ('cutoff', 'logpar', 'function')) else 1e-12
+    rt = 1e-8 if (method == 'int' and kind in NUMERIC_INT_KINDS) else 1e-12
     try:
         fresh = lambda dt=np.float64: tuple(np.array(c, dtype=dt) for c in cols)  # noqa
         ref = _pure_call(obj, method, fresh(), u, desc + ' with fresh float64 arrays')
@@ -1343,11 +1350,49 @@ def run_time_cases(ctx, cases):
         else:
             scale = abs(float(p.t_start)) + abs(float(p.t_stop))
             scale = scale * 1e-6 if np.isfinite(scale) else 1.0
-        res[i] = (c, impl, o, cmp_time(c, impl, o, scale))
+        d = cmp_time(c, impl, o, scale)
+        f_ = ufac(c.get('arg_unit'), c['spec'].get('unit'))
+        if d and c['op'] == 'call' and c['spec']['kind'] == 'box' and f_ is not None:
+            # a 0/1 decision at a support edge for a point given in another unit depends on how the conversion
+            # is written (x * f vs x / f_inv): not a property-level difference within a few ulps of the edge
+            x_ = c['x'] * f_
+            if min(abs(x_ - float(p.t_start)), abs(x_ - float(p.t_stop))) <= 4 * np.spacing(abs(x_)):
+                SKIPPED['skipped:box-edge-in-other-unit'] += 1
+                d = None
+        res[i] = (c, impl, o, d)
     return res
 
 
 # -- histories on the heap
+
+def _count_set_branches(obj, pd_tags):
+    """pd_tags: name -> ('num', value) | ('bad',) | ('arr',); classify each loop iteration of set_params"""
+    k = kind_of(obj)
+    reached = [obj] + ([obj.spatial_profile, obj.energy_profile, obj.time_profile] if k == 'ffm' else [])
+    err = False
+    for o in reached:
+        own_names = ['Phi0'] if kind_of(o) == 'ffm' else list(o.param_names)
+        if err:
+            BR['setParamsV:model-stops-delegation'] += 1
+            break
+        for n in own_names:
+            if err:
+                BR['setOneV:after-error'] += 1
+                continue
+            t = pd_tags.get(n)
+            if t is None:
+                BR['setOne:not-in-dict'] += 1
+            elif t[0] == 'num':
+                try:
+                    cur = float(o.get_param(n))
+                except Exception:  # noqa
+                    cur = None
+                BR['setOne:' + ('unchanged' if cur == t[1] else 'changed')] += 1
+                BR['setOneV:num'] += 1 if t[-1] == 'v' else 0
+            else:
+                BR['setOneV:' + t[0]] += 1
+                err = True
+
 
 class _Opaque:
     """an object that cannot be cast to float"""
@@ -1449,6 +1494,7 @@ def history_lines(hist):
                         st = False
                 except Exception:  # noqa
                     pass
+            _count_set_branches(objs[i], {n: ('num', v) for n, v in pd_content.items()})
             lines.append('set %d %s' % (i, ','.join('%s=%s' % (n, f2b(v)) for n, v in pd_content.items()) or '-'))
             ans = _impl(lambda: '1' if objs[i].set_params(pd) else '0')
             impl.append(ans if dict_intact() else 'DICT-MODIFIED')
@@ -1465,15 +1511,20 @@ def history_lines(hist):
                 else:
                     pdv[n] = {'int': lambda x: int(x), 'np64': np.float64, 'zd': lambda x: np.array(x, dtype=np.float64)}.get(tag, float)(v)
                     toks.append('%s=%s' % (n, f2b(v)))
+            _count_set_branches(objs[i], {n: (tag,) if tag in ('bad', 'arr') else ('num', v, 'v') for n, tag, v in op[2]})
             lines.append('setv %d %s' % (i, ','.join(toks) or '-'))
             impl.append(_impl(lambda: '1' if objs[i].set_params(pdv) else '0'))
             strict.append(True)
         elif op[0] == 'move':
             mu = op[3] if len(op) > 3 else None
+            BR['move:' + (kinds[i] if kinds[i] in T_KINDS else 'no-such-method')] += 1
+            BR['moveU:' + ('none' if ufac(mu, 'day') is None else 'some')] += 1
             lines.append('moveu %d %s %s' % (i, f2b(op[2]), _ut(ufac(mu, 'day'))))
-            impl.append(_impl(lambda: (objs[i].move(op[2], unit=unit(mu)), 'ok')[1]))
+            ans = _impl(lambda: (objs[i].move(op[2], unit=unit(mu)), 'ok')[1])
+            impl.append('ERR' if ans == 'EXC:AttributeError' and kinds[i] not in T_KINDS else ans)
             strict.append(True)
         elif op[0] in ('copy', 'copyset'):
+            BR[('copy:' if op[0] == 'copy' else 'copySet:') + ('ffm' if kinds[i] == 'ffm' else 'profile')] += 1
             if op[0] == 'copy':
                 lines.append('copy %d' % i)
             else:
@@ -1708,6 +1759,10 @@ def gen_energy_spec(rng, kind=None, own=None):
         p = {'E0': E0, 'alpha': round(rng.uniform(0.5, 3.5), 3), 'beta': round(rng.uniform(-0.2, 1.0), 3)}
     elif kind == 'function':
         p = {'g': round(rng.uniform(0.5, 3.5), 2), 'Ec': lg(rng, 3, 7) * sc}
+    elif kind == 'epeak':
+        # the class integrates with a 50-point trapezoid in log10(E): compared at 1e-2 (its own numerical method)
+        p = {'g': round(rng.uniform(0.5, 3.0), 2), 'Ec': lg(rng, 3, 7) * sc, 'e_peak_orig': round(rng.uniform(2.5, 4.0), 2),
+             'e_peak': round(rng.uniform(2.5, 4.0), 2)}
     else:
         p = {}
     return {'kind': kind, 'p': p, 'unit': own}, cls
@@ -1770,6 +1825,8 @@ def new_value(rng, name, old):
         return rng.choice([1.0, 2.5e-12, float(lg(rng, -15, 0)), old])
     if name in ('ra', 'dec'):
         return rng.uniform(0, 1.5)
+    if name == 'e_peak':
+        return round(rng.uniform(2.5, 4.0), 3)
     if name == 't_start':
         return rng.choice([-10.0, rng.uniform(-100, 0)])
     if name == 't_stop':
@@ -1856,6 +1913,8 @@ def gen_history(rng, max_len=4):
             dict_ops.append((kinds[i], pd))
         elif r < 0.8:
             tp = [j for j, k in enumerate(kinds) if k in T_KINDS]
+            if rng.random() < 0.06:      # an object without `move` (Python: AttributeError, model: none)
+                tp = [j for j, k in enumerate(kinds) if k not in T_KINDS and k != 'ffm'] or tp
             if not tp:
                 continue
             j = rng.choice(tp)
@@ -1909,7 +1968,7 @@ def history_to_oracle_ops(h):
             out.append(['set', [p for p in dcont[op[2]]]])
         elif op[0] == 'set' and op[1] == root:
             out.append(['set', [p for p in op[2]]])
-        elif op[0] == 'move' and (op[1] == root or (root == 3 and op[1] == 2)):
+        elif op[0] == 'move' and ((op[1] == root and h['spec']['kind'] in T_KINDS) or (root == 3 and op[1] == 2)):
             out.append(['move', op[2], op[3] if len(op) > 3 else None])
         elif op[0] == 'copy' and op[1] == root:
             out.append(['copy'])
@@ -1967,17 +2026,17 @@ def run(ctx):
 
     # ---- energy profiles
     for _ in range(ctx.n(70, 1500)):
-        spec, cls = gen_energy_spec(rng, kind=rng.choice(['pl', 'pl', 'pl', 'cutoff', 'cutoff', 'logpar', 'logpar', 'function', 'function', 'unityE']))
+        spec, cls = gen_energy_spec(rng, kind=rng.choice(['pl', 'pl', 'pl', 'cutoff', 'cutoff', 'logpar', 'logpar', 'function', 'function', 'unityE', 'epeak']))
         ctx.count('energy:' + cls)
         E1, E2 = gen_energy_interval(rng, spec)
         au = rng.choice([None, None] + E_UNITS)
         f = ufac(au, spec['unit'])
         a1, a2 = (E1, E2) if f is None else (E1 / f, E2 / f)
         ctx.count('arg_unit:%s->%s' % (au, spec['unit']))
-        if spec['kind'] not in ('function', 'unityE'):
+        if spec['kind'] not in ('function', 'unityE', 'epeak'):
             numeric.append({'type': 'numeric', 'op': 'call', 'spec': spec, 'x': a1, 'arg_unit': au})
             numeric.append({'type': 'numeric', 'op': 'int', 'spec': spec, 'x1': a1, 'x2': a2, 'arg_unit': au})
-        oracle_cases.append(('integral_quad', {'spec': spec, 'x1': a1, 'x2': a2, 'arg_unit': au}))
+        oracle_cases.append(('integral_quad', dict({'spec': spec, 'x1': a1, 'x2': a2, 'arg_unit': au}, **({'rtol': 1e-2} if spec['kind'] == 'epeak' else {}))))
         mid = math.sqrt(E1 * E2)
         oracle_cases.append(('additive', {'spec': spec, 'a': E1, 'b': mid, 'c': E2}))
         u1, u2 = rng.choice(E_UNITS), rng.choice(E_UNITS)
@@ -2056,9 +2115,8 @@ def run(ctx):
         mc = {'spec': mspec, 'ra': cv_([1.25, 0.3], fa), 'dec': cv_([0.5, 0.5], fa), 'E': cv_(c['E'], fe),
               't': cv_(rng.sample(tmids, min(3, len(tmids))), ft), 'angle_unit': ua, 'energy_unit': ue, 'time_unit': ut,
               'nones': [[], ['ang'], ['E'], ['t'], ['ang', 'E', 't']]}
-        if es['kind'] != 'unityE':
-            oracle_cases.append(('model_call', mc))
-            model_calls.append(mc)
+        oracle_cases.append(('model_call', mc))
+        model_calls.append(mc)
         ctx.count('model-call-units:%s,%s' % (ue, ut))
         pool = [(n, es['p'][n]) for n in CTOR_PARAMS.get(es['kind'], [])] + [(n, mspec['t']['p'][n]) for n in ('t0', 'tw', 'sigma_t') if n in mspec['t']['p']] + [('Phi0', 1.0)]
         pick = rng.sample(pool, min(len(pool), 2))
@@ -2071,7 +2129,7 @@ def run(ctx):
     # copies of every kind of profile (incl. function-based and the unity profiles)
     for _ in range(ctx.n(24, 300)):
         if rng.random() < 0.6:
-            sp, _c = gen_energy_spec(rng, kind=rng.choice(['pl', 'cutoff', 'logpar', 'function', 'function', 'unityE']))
+            sp, _c = gen_energy_spec(rng, kind=rng.choice(['pl', 'cutoff', 'logpar', 'function', 'function', 'unityE', 'epeak']))
         else:
             sp = rng.choice([gen_time_spec(rng), gen_time_spec(rng, kind='unityT'), {'kind': 'unityS'}, {'kind': 'point', 'p': {'ra': 0.3, 'dec': -0.2}}])
         pd = [[n, float(new_value(rng, n, sp.get('p', {}).get(n, 1.0)))] for n in CTOR_PARAMS.get(sp['kind'], [])[:2] if n not in ('t_start', 't_stop')]
@@ -2087,6 +2145,21 @@ def run(ctx):
     # recorded behaviour outside the assumptions (open findings): negative box width, stale random variable
     oracle_cases.append(('neg_width', {'spec': {'kind': 'box', 'p': {'t0': 0.5, 'tw': -1.0}, 'unit': 'day'}, 'a': -5.0, 'b': 5.0}))
     oracle_cases.append(('rv', {'spec': {'kind': 'gauss', 'p': {'t0': 0.0, 'sigma_t': 1.0, 'tol': None}, 'unit': 'day'}, 'ts': [0.0, 1.0, 3.0], 'pd': [['sigma_t', 4.0]]}))
+
+    # ---- directed histories: one per branch of the model that random histories may miss
+    pl_ = {'kind': 'pl', 'p': {'E0': 10.0, 'gamma': 2.0}, 'unit': 'GeV'}
+    box_ = {'kind': 'box', 'p': {'t0': 5.0, 'tw': 2.0}, 'unit': 'day'}
+    ffm_ = {'kind': 'ffm', 'p': {'Phi0': 2.5e-18}, 's': {'kind': 'point', 'p': {'ra': 1.25, 'dec': 0.5}}, 'e': pl_, 't': box_}
+    for spec_, ops_ in (
+            (ffm_, [['setv', 3, [['Phi0', 'num', 1e-17], ['ra', 'int', 2.0], ['E0', 'num', 5.0], ['gamma', 'bad', 0.0], ['t0', 'num', 9.0]]]]),
+            (ffm_, [['setv', 3, [['E0', 'arr', 0.0], ['tw', 'num', 1.0]]], ['setv', 3, [['tw', 'zd', 1.0], ['bogus', 'bad', 0.0]]]]),
+            (pl_, [['move', 0, 1.0, None], ['setv', 0, [['E0', 'nan', float('nan')]]], ['setv', 0, [['E0', 'nan', float('nan')]]]]),
+            (box_, [['setv', 0, [['t0', 'bad', 0.0], ['tw', 'num', 3.0]]], ['move', 0, 2.0, 'yr'], ['copyset', 0, [['tw', 0.5]]]]),
+            (dict(ffm_, shared={'Phi0': 7.5e-12}), [['set', 4, [['gamma', 3.0], ['Phi0', 1.0]]], ['copy', 4], ['set', 3, [['gamma', 2.5]]]])):
+        histories.append({'type': 'history', 'spec': spec_, 'ops': ops_})
+    model_calls.append({'spec': {'kind': 'ffm', 'p': {'Phi0': 2.5e-18}, 's': {'kind': 'unityS'}, 'e': {'kind': 'unityE', 'p': {}, 'unit': 'TeV'},
+                                 't': {'kind': 'unityT', 'p': {}, 'unit': 'yr'}}, 'ra': [0.1, 0.2], 'dec': [0.0, 0.0], 'E': [1.0, 2.0, 3.0], 't': [0.0],
+                        'angle_unit': 'deg', 'energy_unit': 'PeV', 'time_unit': 's', 'nones': [[], ['E'], ['ang', 't']]})
 
     # ---- histories
     for _ in range(ctx.n(90, 2500)):
